@@ -756,4 +756,583 @@ theorem f_fireUser {m : Bool} {N p : Nat} (st : St) (k : Int) (flags : Nat) (inf
     · exact (f_emit _ _).trans (hs _)
     · exact ((f_emit _ _).trans (hs _)).trans (f_runActs _ _)
 
+/-! ### invoke_watch, the loops of `tickit_evloop_invoke_timers`, the signal walks -/
+
+variable {m : Bool} {N p : Nat}
+
+theorem mem_listOf_ge {st : St} (i : FInv N p st) (t : WType) (a : Nat) (ht : (¬t = .none ∧ ¬t = .io) ∧ ¬t = .signal)
+    (ha : a ∈ listOf st t) : N ≤ a := by
+  cases t
+  · exact absurd rfl ht.1.1
+  · exact absurd rfl ht.1.2
+  · exact i.n1 a ha
+  · exact i.n2 a ha
+  · exact absurd rfl ht.2
+  · exact i.n3 a ha
+
+/-- Unlink a one-shot watch found in the list of type `t`, clear its type, free it. -/
+theorem f_unlinkFound (st : St) (a : Nat) (t : WType) (hN : N ≤ a) :
+    FStep m N p st (((setListOf st t ((listOf st t).erase a)).setW a { st.getW a with type := .none }).free a) :=
+  ((f_setListOf_erase st t a).trans
+    (f_setW _ a _ (by rw [getW_setListOf]) (by rw [getW_setListOf]) (Or.inr ⟨rfl, hN⟩) (Or.inr hN)
+      (fun l h => Or.inl (by rw [getW_setListOf]; exact h)))).trans (f_free _ a hN)
+
+theorem f_unlinkOneshotSaved (st : St) (a : Nat) (t : WType) : FStep m N p st (unlinkOneshotSaved st a t) := by
+  intro i
+  unfold unlinkOneshotSaved
+  split
+  · exact FStep.refl _ _ _ _ i
+  · rename_i hty
+    split
+    · exact f_fail _ _ i
+    · split
+      · exact FStep.refl _ _ _ _ i
+      · rename_i hc
+        have hN : N ≤ a := mem_listOf_ge i t a (by simpa using hty) (by simpa using hc)
+        exact f_unlinkFound st a t hN i
+
+theorem f_unlinkOneshot (st : St) (a : Nat) : FStep m N p st (unlinkOneshot st a) := by
+  intro i
+  unfold unlinkOneshot
+  split
+  · exact f_fail _ _ i
+  · split
+    · exact FStep.refl _ _ _ _ i
+    · rename_i hty
+      split
+      · exact f_fail _ _ i
+      · split
+        · exact FStep.refl _ _ _ _ i
+        · rename_i hc
+          have hN : N ≤ a := mem_listOf_ge i _ a (by simpa using hty) (by simpa using hc)
+          exact f_unlinkFound st a _ hN i
+
+theorem f_fireIf (st : St) (c : Prop) [Decidable c] (k : Int) (flags : Nat) (info : Info) :
+    FStep m N p st (if c then fireUser st k flags info else st) := by
+  split
+  · exact f_fireUser _ _ _ _
+  · exact FStep.refl _ _ _ _
+
+theorem f_invokeWatch (st : St) (a : Nat) (flags : Nat) (info : Info) : FStep m N p st (invokeWatch st a flags info) := by
+  unfold invokeWatch
+  have hf := f_fireIf (m := m) (N := N) (p := p) st ((st.getW a).slot ≥ 0) (st.getW a).slot flags info
+  generalize (if (st.getW a).slot ≥ 0 then fireUser st (st.getW a).slot flags info else st) = s1 at hf ⊢
+  split
+  · exact FStep.refl _ _ _ _
+  · split
+    · exact f_fail _ _
+    · split
+      · exact hf
+      · split
+        · exact hf.trans (f_unlinkOneshotSaved _ a _)
+        · exact hf.trans (f_unlinkOneshot _ a)
+
+theorem f_procStep (st : St) (a : Nat) : FStep m N p st (procStep st a) := by
+  unfold procStep
+  split
+  · exact (same_waitpidV _ _).step
+  · exact (same_waitpidV _ _).step.trans (f_invokeWatch _ _ _ _)
+
+theorem f_outOfFuel (st : St) : FStep m N p st (if st.isOk then { st with status := .outOfFuel } else st) := by
+  split
+  · exact Same.step (by same_rfl)
+  · exact FStep.refl _ _ _ _
+
+theorem f_onSigchld (fuel : Nat) : ∀ (st : St) (this : Option Nat), FStep m N p st (onSigchld fuel st this) := by
+  induction fuel with
+  | zero => intro st this; unfold onSigchld; exact f_outOfFuel st
+  | succ n ih =>
+    intro st this
+    unfold onSigchld
+    split
+    · exact FStep.refl _ _ _ _
+    · split
+      · exact FStep.refl _ _ _ _
+      · split
+        · exact f_fail _ _
+        · exact (f_procStep _ _).trans (ih _ _)
+
+theorem f_procSnapLoop (l : List Nat) : ∀ st : St, FStep m N p st (procSnapLoop st l) := by
+  induction l with
+  | nil => intro st; exact FStep.refl _ _ _ st
+  | cons a rest ih =>
+    intro st
+    unfold procSnapLoop
+    split
+    · exact FStep.refl _ _ _ _
+    · split
+      · exact f_fail _ _
+      · split
+        · exact ih _
+        · split
+          · exact f_fail _ _
+          · exact (f_procStep _ _).trans (ih _)
+
+theorem f_onSigchldAny (fuel : Nat) (st : St) : FStep m N p st (onSigchldAny fuel st) := by
+  unfold onSigchldAny
+  split
+  · split
+    · exact f_fail _ _
+    · exact f_procSnapLoop _ _
+  · exact f_onSigchld _ _ _
+
+theorem f_sigCb (fuel : Nat) (st : St) (a : Nat) (s : Int) : FStep m N p st (sigCb fuel st a s) := by
+  unfold sigCb
+  split
+  · split
+    · exact f_fireUser _ _ _ _
+    · split
+      · exact f_onSigchldAny _ _
+      · split
+        · exact Same.step (by same_rfl)
+        · exact FStep.refl _ _ _ _
+  · exact FStep.refl _ _ _ _
+
+theorem f_sigwatchLoopT (fuel : Nat) : ∀ (st : St) (s : Int) (this : Option Nat), FStep m N p st (sigwatchLoopT fuel st s this).1 := by
+  induction fuel with
+  | zero => intro st s this; unfold sigwatchLoopT; exact f_outOfFuel st
+  | succ n ih =>
+    intro st s this
+    unfold sigwatchLoopT
+    split
+    · exact FStep.refl _ _ _ _
+    · split
+      · exact FStep.refl _ _ _ _
+      · split
+        · exact f_fail _ _
+        · split
+          · exact f_sigCb _ _ _ _
+          · split
+            · exact (f_sigCb _ _ _ _).trans (f_fail _ _)
+            · exact (f_sigCb _ _ _ _).trans (ih _ _ _)
+
+theorem fG_sigSnapLoop (cb : St → Nat → St) (hcb : ∀ st a, FStep m N p st (cb st a)) (l : List Nat) :
+    ∀ st : St, FStep m N p st (sigSnapLoopG cb st l).1 := by
+  induction l with
+  | nil => intro st; exact FStep.refl _ _ _ st
+  | cons a rest ih =>
+    intro st
+    unfold sigSnapLoopG
+    split
+    · exact FStep.refl _ _ _ _
+    · split
+      · exact f_fail _ _
+      · split
+        · exact ih _
+        · split
+          · exact f_fail _ _
+          · exact (hcb _ _).trans (ih _)
+
+theorem f_sigSnapLoopT (fuel : Nat) (s : Int) (l : List Nat) (st : St) : FStep m N p st (sigSnapLoopT fuel st s l).1 := by
+  unfold sigSnapLoopT
+  exact fG_sigSnapLoop _ (fun st a => f_sigCb fuel st a s) l st
+
+theorem f_sigDispatch (fuel : Nat) (st : St) (s : Int) : FStep m N p st (sigDispatch fuel st s) := by
+  unfold sigDispatch
+  split
+  · split
+    · exact f_fail _ _
+    · exact f_sigSnapLoopT _ _ _ _
+  · exact f_sigwatchLoopT _ _ _ _
+
+theorem f_processNotify (st : St) (a : Nat) : FStep m N p st (processNotify st a) := by
+  unfold processNotify
+  split
+  · exact f_fail _ _
+  · exact (f_clearNotify _ _).trans (f_invokeWatch _ _ _ _)
+
+theorem f_laterCb (st : St) (a : Nat) : FStep m N p st (laterCb st a) := by
+  unfold laterCb
+  split
+  · exact f_fireUser _ _ _ _
+  · split
+    · exact f_processNotify _ _
+    · exact FStep.refl _ _ _ _
+
+theorem f_laterPre (st : St) (a : Nat) : FStep m N p st (laterPre st a) := by
+  unfold laterPre
+  split
+  · exact f_setW _ a _ rfl rfl (Or.inl rfl) (Or.inl rfl) (fun _ h => Or.inl h)
+  · exact FStep.refl _ _ _ _
+
+theorem f_laterLoop (l : List Nat) (hl : ∀ x ∈ l, N ≤ x) : ∀ st : St, FStep m N p st (laterLoop st l) := by
+  induction l with
+  | nil => intro st; exact FStep.refl _ _ _ st
+  | cons a rest ih =>
+    have hN : N ≤ a := hl a List.mem_cons_self
+    have ih := ih (fun x hx => hl x (List.mem_cons_of_mem _ hx))
+    intro st
+    unfold laterLoop
+    split
+    · exact FStep.refl _ _ _ _
+    · split
+      · exact f_fail _ _
+      · split
+        · exact (f_free _ a hN).trans (ih _)
+        · split
+          · exact (f_laterPre st a).trans (f_laterCb _ a)
+          · split
+            · exact ((f_laterPre st a).trans (f_laterCb _ a)).trans (f_fail _ _)
+            · exact (((f_laterPre st a).trans (f_laterCb _ a)).trans (f_free _ a hN)).trans (ih _)
+
+theorem timers_free (st : St) (a : Nat) : (st.free a).timers = st.timers := by
+  unfold St.free
+  split
+  · rfl
+  · exact St.timers_fail _ _
+
+theorem f_timerLoop (fuel : Nat) : ∀ (st : St) (now : TV) (this : Option Nat), (∀ a, this = some a → a ∈ st.timers) →
+    FStep m N p st (timerLoop fuel st now this).1 := by
+  induction fuel with
+  | zero => intro st now this _; unfold timerLoop; exact f_outOfFuel st
+  | succ n ih =>
+    intro st now this hthis i
+    unfold timerLoop
+    split
+    · exact FStep.refl _ _ _ _ i
+    · split
+      · exact FStep.refl _ _ _ _ i
+      · rename_i a
+        have hN : N ≤ a := i.n1 a (hthis a rfl)
+        split
+        · exact f_fail _ _ i
+        · split
+          · exact FStep.refl _ _ _ _ i
+          · split
+            · exact f_fireUser _ _ _ _ i
+            · split
+              · exact ((f_fireUser _ _ _ _).trans (f_fail _ _)) i
+              · refine (((f_fireUser _ _ _ _).trans (f_free _ a hN)).trans (ih _ _ _ ?_)) i
+                intro b hb
+                rw [timers_free]
+                exact succOf_mem a b _ hb
+
+theorem f_timerLoopPop (fuel : Nat) : ∀ (st : St) (now : TV), FStep m N p st (timerLoopPop fuel st now) := by
+  induction fuel with
+  | zero => intro st now; unfold timerLoopPop; exact f_outOfFuel st
+  | succ n ih =>
+    intro st now i
+    unfold timerLoopPop
+    split
+    · exact FStep.refl _ _ _ _ i
+    · split
+      · exact FStep.refl _ _ _ _ i
+      · rename_i a rest hq
+        have hN : N ≤ a := i.n1 a (by rw [hq]; exact List.mem_cons_self)
+        have hrest : ∀ y ∈ rest, N ≤ y := fun y hy => i.n1 y (by rw [hq]; exact List.mem_cons_of_mem _ hy)
+        split
+        · exact f_fail _ _ i
+        · split
+          · exact FStep.refl _ _ _ _ i
+          · have h1 := (f_with_timers (m := m) (N := N) (p := p) st rest hrest).trans
+              (f_fireUser { st with timers := rest } (st.getW a).slot (EV_FIRE ||| EV_UNBIND) .none)
+            split
+            · exact h1 i
+            · split
+              · exact (h1.trans (f_fail _ _)) i
+              · exact ((h1.trans (f_free _ a hN)).trans (ih _ _)) i
+
+theorem f_timerPhaseShipped (fuel : Nat) (st : St) (now : TV) : FStep m N p st (timerPhaseShipped fuel st now) := by
+  have h0 : FStep m N p st (timerLoop fuel st now st.timers.head?).1 :=
+    f_timerLoop fuel st now _ (fun a ha => List.mem_of_mem_head? ha)
+  unfold timerPhaseShipped
+  split
+  · exact h0.trans (f_lists rfl rfl rfl rfl rfl rfl rfl
+      (fun h y hy => h y ((suffixFrom_sublist _ _).subset hy)) id id id)
+  · exact h0
+
+theorem f_timerPhase (fuel : Nat) (st : St) : FStep m N p st (timerPhase fuel st) := by
+  unfold timerPhase
+  split
+  · exact FStep.refl _ _ _ _
+  · split
+    · exact (f_emit _ _).trans (f_timerLoopPop _ _ _)
+    · exact (f_emit _ _).trans (f_timerPhaseShipped _ _ _)
+
+theorem f_invokeTimers (fuel : Nat) (st : St) : FStep m N p st (invokeTimers fuel st) := by
+  intro i
+  unfold invokeTimers
+  split
+  · exact FStep.refl _ _ _ _ i
+  · exact (((f_with_laters st [] (fun y hy => by cases hy)).trans (f_timerPhase _ _)).trans (f_laterLoop _ i.n2 _)) i
+
+/-! ### the wait, `on_sigpipe_readable`, one iteration, `tickit_run` (`m = false`) -/
+
+theorem f_sigpipeLoop (fuel : Nat) : ∀ (st : St) (pending : List Int) (this : Option Nat),
+    FStep m N p st (sigpipeLoop fuel st pending this) := by
+  induction fuel with
+  | zero => intro st pending this; unfold sigpipeLoop; exact f_outOfFuel st
+  | succ n ih =>
+    intro st pending this
+    unfold sigpipeLoop
+    split
+    · exact FStep.refl _ _ _ _
+    · split
+      · exact FStep.refl _ _ _ _
+      · split
+        · exact f_fail _ _
+        · split
+          · exact ih _ _ _
+          · split
+            · exact f_sigCb _ _ _ _
+            · split
+              · exact (f_sigCb _ _ _ _).trans (f_fail _ _)
+              · exact (f_sigCb _ _ _ _).trans (ih _ _ _)
+
+theorem f_sigpipeInvoke (fuel : Nat) (pending : List Int) (l : List Int) : ∀ st : St, FStep m N p st (sigpipeInvoke fuel st pending l) := by
+  induction l with
+  | nil => intro st; exact FStep.refl _ _ _ st
+  | cons s rest ih =>
+    intro st
+    unfold sigpipeInvoke
+    refine FStep.trans ?_ (ih _)
+    split
+    · exact f_sigDispatch _ _ _
+    · exact FStep.refl _ _ _ _
+
+/-- `on_sigpipe_readable` begins by reading one byte and emptying `t->signal.pending`. -/
+theorem f_takePending (st : St) : FStep false N p st { st with pipeBytes := st.pipeBytes - 1, pendingSig := [] } := by
+  intro i
+  exact ⟨i.of_ext (HExtP.of_heap_eq rfl) rfl rfl (Nat.le_refl _) rfl rfl rfl i.n1 i.n2 i.n3 i.n4 i.n5
+    (fun a h1 (h2 : a < st.heap.length) _ => absurd h2 (by omega)) (fun h => absurd rfl h),
+    HExtP.of_heap_eq rfl, rfl, (fun h => absurd h (by decide)), (fun h => absurd h (by decide))⟩
+
+theorem f_onSigpipeReadable (fuel : Nat) (st : St) : FStep false N p st (onSigpipeReadable fuel st) := by
+  unfold onSigpipeReadable
+  split
+  · exact (f_takePending st).trans (f_sigpipeInvoke _ _ _ _)
+  · exact (f_takePending st).trans (f_sigpipeLoop _ _ _ _)
+
+theorem f_ioCb (fuel : Nat) (st : St) (s : PollSlot) : FStep false N p st (ioCb fuel st s) := by
+  unfold ioCb
+  split
+  · split
+    · exact f_fail _ _
+    · split
+      · exact f_onSigpipeReadable _ _
+      · exact f_invokeWatch _ _ _ _
+  · exact FStep.refl _ _ _ _
+
+theorem f_ioLoop (fuel : Nat) : ∀ (st : St) (idx : Nat), FStep false N p st (ioLoop fuel st idx) := by
+  induction fuel with
+  | zero => intro st idx; unfold ioLoop; exact f_outOfFuel st
+  | succ n ih =>
+    intro st idx
+    unfold ioLoop
+    split
+    · exact FStep.refl _ _ _ _
+    · split
+      · exact FStep.refl _ _ _ _
+      · split
+        · exact ih _ _
+        · split
+          · exact ih _ _
+          · exact (f_ioCb _ _ _).trans (ih _ _)
+
+theorem getD_map_slot (l : List PollSlot) (f : PollSlot → PollSlot) (e : Nat) (h : e < l.length) :
+    (l.map f).getD e default = f (l.getD e default) := by
+  simp only [List.getD_eq_getElem?_getD, List.getElem?_map, List.getElem?_eq_getElem h, Option.map_some, Option.getD_some]
+
+/-- The kernel writes `revents` of every entry (nothing else). -/
+theorem f_pollScan (st : St) : FStep false N p st (pollScan st) := by
+  intro i
+  unfold pollScan
+  have hg := getD_map_slot st.pfd (fun s => { s with revents := some (pollRevents st s) }) _ i.pidx
+  exact ⟨i.of_ext (HExtP.of_heap_eq rfl) rfl rfl (by simp) (by rw [hg]) (by rw [hg]) (by rw [hg]) i.n1 i.n2 i.n3 i.n4 i.n5
+    (fun a h1 (h2 : a < st.heap.length) _ => absurd h2 (by omega)) i.bytes,
+    HExtP.of_heap_eq rfl, rfl, (fun h => absurd h (by decide)), (fun h => absurd h (by decide))⟩
+
+theorem f_foldl_raiseSig (l : List Int) : ∀ st : St, FStep m N p st (l.foldl raiseSig st) := by
+  induction l with
+  | nil => intro st; exact FStep.refl _ _ _ st
+  | cons s rest ih => intro st; exact (f_raiseSig st s).trans (ih _)
+
+theorem f_pollRaise (st : St) : FStep m N p st (pollRaise st) := by
+  unfold pollRaise
+  exact (Same.step (by same_rfl) : FStep m N p st { st with inpoll := [] }).trans (f_foldl_raiseSig _ _)
+
+theorem same_pollTimeout (st : St) (t : Option Int) : Same st (pollTimeout st t) := by
+  unfold pollTimeout
+  split
+  · same_rfl
+  · exact Same.refl _
+
+theorem f_ppoll (st : St) (t : Option Int) : FStep false N p st (ppoll st t).1 := by
+  unfold ppoll
+  split
+  · exact (f_pollScan st).trans (f_pollRaise _)
+  · split
+    · exact ((f_pollScan st).trans (f_pollRaise _)).trans (f_emit _ _)
+    · split
+      · exact (((f_pollScan st).trans (f_pollRaise _)).trans (Same.step (by same_rfl))).trans (f_emit _ _)
+      · exact (((f_pollScan st).trans (f_pollRaise _)).trans (same_pollTimeout _ _).step).trans (f_emit _ _)
+
+theorem f_nextTimerMsec (st : St) : FStep m N p st (nextTimerMsec st).1 := by
+  unfold nextTimerMsec
+  split
+  · exact FStep.refl _ _ _ _
+  · split
+    · exact FStep.refl _ _ _ _
+    · split
+      · exact (f_emit _ _).trans (f_fail _ _)
+      · exact f_emit _ _
+
+theorem f_tickAfterPoll (fuel : Nat) (st : St) (ret : Option Nat) : FStep false N p st (tickAfterPoll fuel st ret) := by
+  unfold tickAfterPoll
+  split
+  · exact f_invokeTimers _ _
+  · split
+    · split
+      · exact (f_invokeTimers _ _).trans (f_ioLoop _ _ _)
+      · exact f_invokeTimers _ _
+    · unfold dispatchSignals
+      split
+      · exact f_invokeTimers _ _
+      · exact f_invokeTimers _ _
+
+theorem f_tick (fuel : Nat) (st : St) (nohang : Bool) : FStep false N p st (tick fuel st nohang) := by
+  unfold tick
+  split
+  · exact FStep.refl _ _ _ _
+  · split
+    · exact f_nextTimerMsec _
+    · split
+      · exact (f_nextTimerMsec _).trans (f_ppoll _ _)
+      · exact ((f_nextTimerMsec _).trans (f_ppoll _ _)).trans (f_tickAfterPoll _ _ _)
+
+theorem f_ppollRun (st : St) (t : Option Int) : FStep false N p st (ppollRun st t).1 := by
+  unfold ppollRun
+  split
+  · exact f_ppoll _ _
+  · split
+    · exact ((f_ppoll st t).trans (Same.step (by same_rfl) : FStep false N p (ppoll st t).1
+        { (ppoll st t).1 with runPolls := (ppoll st t).1.runPolls + 1, stillRunning := false })).trans (f_emit _ _)
+    · exact (f_ppoll st t).trans (Same.step (by same_rfl) : FStep false N p (ppoll st t).1
+        { (ppoll st t).1 with runPolls := (ppoll st t).1.runPolls + 1 })
+
+theorem f_runIter (fuel : Nat) (st : St) : FStep false N p st (runIter fuel st) := by
+  unfold runIter
+  split
+  · exact FStep.refl _ _ _ _
+  · split
+    · exact f_nextTimerMsec _
+    · split
+      · exact (f_nextTimerMsec _).trans (f_ppollRun _ _)
+      · exact ((f_nextTimerMsec _).trans (f_ppollRun _ _)).trans (f_tickAfterPoll _ _ _)
+
+theorem f_runLoop (fuel : Nat) (n : Nat) : ∀ st : St, FStep false N p st (runLoop fuel n st) := by
+  induction n with
+  | zero => intro st; unfold runLoop; exact f_outOfFuel st
+  | succ k ih =>
+    intro st
+    unfold runLoop
+    split
+    · exact FStep.refl _ _ _ _
+    · split
+      · exact FStep.refl _ _ _ _
+      · exact (f_runIter _ _).trans (ih _)
+
+theorem f_run (fuel : Nat) (st : St) : FStep false N p st (run fuel st) := by
+  intro i
+  have h0 : FStep false N p st { (watchSignal st 2 0 (-5)).1 with stillRunning := true, inRun := true, runPolls := 0 } :=
+    (f_watchSignal st 2 0 (-5)).trans (Same.step (by same_rfl))
+  unfold run
+  split
+  · exact FStep.refl _ _ _ _ i
+  · split
+    · exact (h0.trans (f_runLoop _ _ _)) i
+    · exact (((h0.trans (f_runLoop _ _ _)).trans (Same.step (by same_rfl))).trans (f_watchCancel _ _ i.nle)) i
+
+/-! ### every reachable state -/
+
+theorem destroy_ok_not_alive (st : St) (h : (destroy st).isOk = true) (h0 : st.isOk = true) : (destroy st).alive = false := by
+  unfold destroy at h ⊢
+  rw [h0] at h ⊢
+  simp only [Bool.not_true, Bool.false_eq_true, if_false] at h ⊢
+  unfold destroyFinish at h ⊢
+  split
+  · rfl
+  · rename_i hn
+    rw [if_neg hn] at h
+    exact absurd h hn
+
+/-- The invariant in the form that survives every operation: it holds while the instance is alive and defined. -/
+def FReach (N p : Nat) (st : St) : Prop := st.isOk = true → st.alive = true → FInv N p st
+
+theorem freach_applyOp (st : St) (op : Op) (r : FReach N p st) : FReach N p (applyOp st op) := by
+  unfold applyOp
+  have r0 : FReach N p { st with log := [] } := fun h1 h2 => (r h1 h2).of_same (by same_rfl)
+  generalize ({ st with log := [] } : St) = s0 at r0 ⊢
+  unfold applyOp'
+  split
+  · exact r0
+  · rename_i hok
+    have hok' : s0.isOk = true := by simpa using hok
+    split
+    · exact r0
+    · exact r0
+    · exact r0
+    · split
+      · exact r0
+      · rename_i hal
+        have hal' : s0.alive = true := by simpa using hal
+        have i0 := r0 hok' hal'
+        split
+        · exact fun _ _ => i0.of_same (by same_rfl)
+        · exact fun _ _ => (f_runAct (m := false) _ _ i0).inv
+        · exact fun _ _ => i0.of_same (by same_rfl)
+        · exact fun _ _ => i0.of_same (by same_rfl)
+        · exact fun _ _ => i0.of_same (by same_rfl)
+        · exact fun _ _ => (((Same.step (by same_rfl) : FStep false N p s0 { s0 with stillRunning := true }).trans (f_tick _ _ _)) i0).inv
+        · exact fun _ _ => (((Same.step (by same_rfl) : FStep false N p s0 { s0 with stillRunning := true }).trans (f_tick _ _ _)) i0).inv
+        · exact fun _ _ => (f_run _ _ i0).inv
+        · intro h1 h2
+          rw [destroy_ok_not_alive s0 h1 hok'] at h2
+          cases h2
+        · exact r0
+
+set_option maxHeartbeats 4000000 in
+/-- `tickit_build` with these hooks makes three watches: the terminal's input watch (0), the SIGWINCH watch (1) and
+    the pipe watch (2), which takes the poll entry the terminal's watch (descriptor -1) left free. -/
+theorem build_facts (cfg : Config) : (build cfg).pipewatch = some 2 ∧ (build cfg).heap.length = 3 ∧ (build cfg).live 2 = true ∧
+    ((build cfg).getW 2).slot = -6 ∧ ((build cfg).getW 2).evi = 0 ∧ (build cfg).pfd.length = 1 ∧
+    ((build cfg).pfd.getD 0 default).fd = 90 ∧ ((build cfg).pfd.getD 0 default).events = POLLIN ∧
+    ((build cfg).pfd.getD 0 default).watch = some 2 ∧ (build cfg).pipesMade = 1 ∧ (build cfg).timers = [] ∧
+    (build cfg).laters = [] ∧ (build cfg).procs = [] ∧ (build cfg).slots = [] ∧ (build cfg).pendingSig = [] ∧
+    ((build cfg).getW 0).notify = none ∧ ((build cfg).getW 1).notify = none ∧ ((build cfg).getW 2).notify = none := by
+  refine ⟨?_, ?_, ?_, ?_, ?_, ?_, ?_, ?_, ?_, ?_, ?_, ?_, ?_, ?_, ?_, ?_, ?_, ?_⟩ <;> rfl
+
+theorem finv_of_facts (s : St) (h : s.pipewatch = some 2 ∧ s.heap.length = 3 ∧ s.live 2 = true ∧
+    (s.getW 2).slot = -6 ∧ (s.getW 2).evi = 0 ∧ s.pfd.length = 1 ∧
+    (s.pfd.getD 0 default).fd = 90 ∧ (s.pfd.getD 0 default).events = POLLIN ∧
+    (s.pfd.getD 0 default).watch = some 2 ∧ s.pipesMade = 1 ∧ s.timers = [] ∧
+    s.laters = [] ∧ s.procs = [] ∧ s.slots = [] ∧ s.pendingSig = [] ∧
+    (s.getW 0).notify = none ∧ (s.getW 1).notify = none ∧ (s.getW 2).notify = none) : FInv 3 2 s := by
+  obtain ⟨b1, b2, b3, b4, b5, b6, b7, b8, b9, b10, b11, b12, b13, b14, b15, b16, b17, b18⟩ := h
+  refine ⟨b1, by decide, by rw [b2]; exact Nat.le_refl 3, b3, b4, by rw [b5, b6]; exact Nat.lt_succ_self 0, by rw [b5]; exact b7,
+    by rw [b5]; exact b8, by rw [b5]; exact b9, b10, ?_, ?_, ?_, ?_, ?_, ?_, ?_⟩
+  · intro x hx; rw [b11] at hx; cases hx
+  · intro x hx; rw [b12] at hx; cases hx
+  · intro x hx; rw [b13] at hx; cases hx
+  · intro x hx; rw [b14] at hx; cases hx
+  · intro a l hl
+    match a, hl with
+    | 0, hl => rw [b16] at hl; cases hl
+    | 1, hl => rw [b17] at hl; cases hl
+    | 2, hl => rw [b18] at hl; cases hl
+    | n + 3, hl => rw [getW_oob _ _ (by rw [b2]; omega)] at hl; cases hl
+  · intro a h1 h2; rw [b2] at h2; omega
+  · intro h; exact absurd b15 h
+
+theorem finv_build (cfg : Config) : FInv 3 2 (build cfg) := finv_of_facts _ (build_facts cfg)
+
+theorem freach_runOps (cfg : Config) (ops : List Op) : FReach 3 2 (runOps cfg ops) := by
+  unfold runOps
+  have : ∀ (l : List Op) (st : St), FReach 3 2 st → FReach 3 2 (l.foldl applyOp st) := by
+    intro l
+    induction l with
+    | nil => intro st h; exact h
+    | cons o rest ih => intro st h; exact ih _ (freach_applyOp st o h)
+  exact this ops _ (fun _ _ => finv_build cfg)
+
 end Tickit.EvLoop.Fb
